@@ -25,6 +25,21 @@ static std::vector<std::array<T, 9>> values() {
   }
   return out;
 }
+// boundary values of the conversion T1 -> T2 when T2 has the smaller range: next to T2's largest finite value (just above
+// it, just below and exactly at the rounding tie beyond which a cast gives infinity), next to its smallest normal and
+// smallest subnormal values (ties to zero), tiny negatives that become -0. The oracle stays the compiler's plain cast.
+template <class T1, class T2>
+static std::vector<std::array<T1, 9>> boundary_values() {
+  std::vector<std::array<T1, 9>> out;
+  if constexpr (std::numeric_limits<T2>::max_exponent < std::numeric_limits<T1>::max_exponent) {
+    const T1 inf = std::numeric_limits<T1>::infinity();
+    const T1 mx = (T1)std::numeric_limits<T2>::max(), tie = mx + std::ldexp((T1)1, std::numeric_limits<T2>::max_exponent - std::numeric_limits<T2>::digits - 1);
+    const T1 mn = (T1)std::numeric_limits<T2>::min(), dm = (T1)std::numeric_limits<T2>::denorm_min();
+    out.push_back({std::nextafter(mx, inf), -std::nextafter(mx, inf), std::nextafter(tie, (T1)0), -std::nextafter(tie, (T1)0), tie, -tie, std::nextafter(tie, inf), mx, std::nextafter(mx, (T1)0)});
+    out.push_back({std::nextafter(mn, (T1)0), -mn, std::nextafter(mn, inf), dm / 2, std::nextafter(dm / 2, inf), -std::nextafter(dm / 2, (T1)0), -dm / 4, dm * (T1)1.5, std::nextafter(dm * (T1)1.5, (T1)0)});
+  }
+  return out;
+}
 template <class QA, class QB, class = void>
 struct Assignable : std::false_type {};
 template <class QA, class QB>
@@ -49,7 +64,9 @@ void pair(const char* name) {
     else
       return vf::make<Q2>(c);
   };
-  for (const auto& vals : values<T1>()) {
+  auto all_values = values<T1>();
+  for (const auto& b : boundary_values<T1, T2>()) all_values.push_back(b);
+  for (const auto& vals : all_values) {
     if constexpr (dir) {
       // a direction is built by normalising: infinite and overflowing components are outside its domain
       bool fin = true;
@@ -103,6 +120,23 @@ void pair(const char* name) {
       check("converting-assignment", dst);
       dst = src;
       check("converting-assignment-twice", dst);
+      // ... and over a target that already compares equal to the converted source but is not the same numbers: every zero
+      // with the opposite sign (an assignment that skips the store when `target == converted` keeps the old zeros)
+      {
+        T2 cur[9];
+        vf::comps(dst, cur);
+        bool any = false;
+        for (int i = 0; i < N; i++)
+          if (cur[i] == 0) {
+            cur[i] = -cur[i];
+            any = true;
+          }
+        if (any) {
+          Q2 dst2 = make2(cur);
+          dst2 = src;
+          check("converting-assignment-over-equal-valued-target", dst2);
+        }
+      }
       vf::setadd("converting_members", std::string(name) + "|assign");
     }
     // widening followed by narrowing is the identity
